@@ -33,3 +33,26 @@ package aggregator
 //@   invariant true
 //@   step[C12.sr.failed] failed == prev_failed || (len(failed) == len(prev_failed) + 1 &&
 //@        failed[len(prev_failed)] == res_GetTokenFeeder_0.TokenID && forall(i, 0, len(prev_failed), failed[i] == prev_failed[i]))
+
+// C12 (a validator's power counts once per reported value): what the calculator and the aggregator are given is the
+// output of the filter (which drops what this validator already reported), never the raw message; the power handed on
+// is the one recorded for the sender in the current validator set.
+//@ func (*worker).do
+//@   flag noframe
+//@   flag havoc=filtrate,confirmDSPrice,fillPrice
+//@   before[C12.wd.calc] calculator).fillPrice requires arg_pSources == res_filtrate_0
+//@   before[C12.wd.agg]  aggregator).fillPrice requires arg_pSources == res_filtrate_1
+//@   ensures[C12.wd.list] r0 == res_filtrate_1
+
+// C12 (a round's final price is recorded at most once): a price submission is taken into a round only while that
+// round is open - a round that has been closed (by a final price or by its window ending) takes nothing any more.
+//@ func (*AggregatorContext).checkMsg
+//@   flag noframe
+//@   flag havoc=sanityCheck
+//@   flag pure=CheckRules,CheckDecimal
+//@   ensures[C12.cm.open] err == nil ==> has(agc.rounds, msg.FeederID) && agc.rounds[msg.FeederID] != nil && agc.rounds[msg.FeederID].status == 1 &&
+//@        agc.rounds[msg.FeederID].basedBlock == msg.BasedBlock
+//@ loop #1
+//@   invariant true
+//@ loop #2
+//@   invariant true
